@@ -17,7 +17,10 @@ Open Scope N_scope.
      7  rpc: soap:body parts="..." restriction                  (ignored: all parts in the wrapper)
      8  two ports/bindings publishing the same <portType>_<operation> name (last one wins)
      9  a soap:header bound in wsdl:output                      (Header required: a Fault response
-                                                                 without it cannot be parsed)  *)
+                                                                 without it cannot be parsed)
+    10  a part refers to a schema component whose expanded name is also that of a
+        wsdl:message of this document                           (the class made for the rpc message
+                                                                 replaces the schema class)   *)
 
 (* schema knowledge the clauses need: the global simple types (Model.Wsdl.tenv) *)
 Definition senv := tenv.
@@ -87,11 +90,24 @@ Definition findings_port (e : senv) (d : definitions) (p : port) : list (list na
 Definition findings (e : senv) (d : definitions) : list (list nat) :=
   flat_map (fun s => flat_map (findings_port e d) (svc_ports s)) (d_services d).
 
-Definition names_distinct (d : definitions) : bool := nodup_str (map sd_name (expected d)).
+Definition names_distinct (d : definitions) : bool := nodup_str (map sd_name (expected [] d)).
+
+(* clause 10, on the whole document *)
+Definition part_ref (p : part) : option (str * str) :=
+  match part_element p, part_type p with
+  | Some x, _ => resolve_qname (part_ns p) x
+  | None, Some t => resolve_qname (part_ns p) t
+  | None, None => None
+  end.
+Definition is_message_qname (d : definitions) (q : str * str) : bool :=
+  ostr_eqb (Some (fst q)) (d_tns d) && existsb (fun m => str_eqb (msg_name m) (snd q)) (d_messages d).
+Definition no_shadow (d : definitions) : bool :=
+  forallb (fun m => forallb (fun p => match part_ref p with Some q => negb (is_message_qname d q) | None => true end)
+                            (msg_parts m)) (d_messages d).
 
 (* the guard of the mapper theorem *)
 Definition guard (e : senv) (d : definitions) : bool :=
-  forallb (fun l => match l with [] => true | _ => false end) (findings e d) && names_distinct d.
+  forallb (fun l => match l with [] => true | _ => false end) (findings e d) && names_distinct d && no_shadow d.
 
 (* ------------------------------------------------------------------ oracle (ii): real output vs expected
    per expected description: 0 = the generated service says exactly what `expected` says;
@@ -103,25 +119,26 @@ Definition real_lookup (real : list service_desc) (n : str) : option service_des
 Definition count_name (names : list str) (n : str) : nat :=
   length (filter (str_eqb n) names).
 
-Definition op_code (e : senv) (names : list str) (real : list service_desc) (ef : service_desc * list nat) : nat :=
+Definition op_code (shadow : bool) (names : list str) (real : list service_desc) (ef : service_desc * list nat) : nat :=
   let (ex, fs) := ef in
   match real_lookup real (sd_name ex) with
   | None => 91%nat
   | Some r =>
-      if sd_eqb r (canon_sd e ex) then 0%nat
+      if sd_eqb r ex then 0%nat
       else match fs with
            | k :: _ => k
-           | [] => if Nat.ltb 1 (count_name names (sd_name ex)) then 8%nat else 90%nat
+           | [] => if Nat.ltb 1 (count_name names (sd_name ex)) then 8%nat
+                   else if shadow then 10%nat else 90%nat
            end
   end.
 
 Definition oracle_codes (e : senv) (d : definitions) (real : list service_desc) : list nat :=
-  let ex := expected d in
-  map (op_code e (map sd_name ex) real) (combine ex (findings e d)).
+  let ex := expected e d in
+  map (op_code (negb (no_shadow d)) (map sd_name ex) real) (combine ex (findings e d)).
 
 (* every generated service is one that `expected` names *)
 Definition no_extra_services (d : definitions) (real : list service_desc) : bool :=
-  forallb (fun r => existsb (fun x => str_eqb (sd_name x) (sd_name r)) (expected d)) real.
+  forallb (fun r => existsb (fun x => str_eqb (sd_name x) (sd_name r)) (expected [] d)) real.
 
 (* ------------------------------------------------------------------ oracle (iii): what the real client did
    kind 0: a posted request (judged against the expected input shape and the HTTP rules);
@@ -131,8 +148,8 @@ Definition no_extra_services (d : definitions) (real : list service_desc) : bool
 Record e2e_obs := mk_e2e {
   eo_name : str; eo_kind : nat; eo_tree : xtree; eo_url : str; eo_headers : list (str * str) }.
 
-Definition e2e_code (d : definitions) (o : e2e_obs) : nat :=
-  match find (fun x => str_eqb (sd_name x) (eo_name o)) (rev (expected d)) with
+Definition e2e_code (e : senv) (d : definitions) (o : e2e_obs) : nat :=
+  match find (fun x => str_eqb (sd_name x) (eo_name o)) (rev (expected e d)) with
   | None => 3%nat
   | Some ex =>
       match eo_kind o with
@@ -148,9 +165,59 @@ Definition e2e_code (d : definitions) (o : e2e_obs) : nat :=
       end
   end.
 
+(* ------------------------------------------------------------------ correspondence (i): DefinitionsMapper.map
+   the raw classes the real mapper returns (before ClassContainer), field by field;
+   id()-references are compared through the qname of the referenced class *)
+Record fattr := mk_fattr {
+  fa_name : str; fa_ns : option str; fa_default : option str; fa_type : qn;
+  fa_native : bool; fa_forward : bool; fa_ref : option qn; fa_min : option nat; fa_max : option nat }.
+Inductive fclass := FClass (q : qn) (meta : option str) (tg : nat) (ns : option str)
+                           (attrs : list fattr) (inner : list fclass).
+
+Definition tag_code (t : ctag) : nat :=
+  match t with TagElement => 0 | TagBindingMessage => 1 | TagBindingOperation => 2 end%nat.
+
+Definition flatten_attr (a : attr) : fattr :=
+  mk_fattr (a_name a) (a_namespace a) (a_default a) (a_type a) (a_native a) (a_forward a)
+           (option_map c_qname (a_ref a)) (a_min a) (a_max a).
+
+Fixpoint flatten (fuel : nat) (c : aclass) : fclass :=
+  match fuel with
+  | O => FClass (c_qname c) None 9%nat None [] []
+  | S f => FClass (c_qname c) (c_meta_name c) (tag_code (c_tag c)) (c_namespace c)
+                  (map flatten_attr (c_attrs c)) (map (flatten f) (c_inner c))
+  end.
+
+Definition onat_eqb := opt_eqb Nat.eqb.
+Definition fattr_eqb (a b : fattr) : bool :=
+  str_eqb (fa_name a) (fa_name b) && ostr_eqb (fa_ns a) (fa_ns b) && ostr_eqb (fa_default a) (fa_default b)
+  && qn_eqb (fa_type a) (fa_type b) && Bool.eqb (fa_native a) (fa_native b) && Bool.eqb (fa_forward a) (fa_forward b)
+  && opt_eqb qn_eqb (fa_ref a) (fa_ref b) && onat_eqb (fa_min a) (fa_min b) && onat_eqb (fa_max a) (fa_max b).
+
+Fixpoint fclass_eqb (a b : fclass) : bool :=
+  match a, b with
+  | FClass q m t n at_ inn, FClass q' m' t' n' at' inn' =>
+      qn_eqb q q' && ostr_eqb m m' && Nat.eqb t t' && ostr_eqb n n' && list_eqb fattr_eqb at_ at'
+      && (fix go (x y : list fclass) : bool :=
+            match x, y with
+            | [], [] => true
+            | i :: x', j :: y' => fclass_eqb i j && go x' y'
+            | _, _ => false
+            end) inn inn'
+  end.
+
+(* observed: None = the real mapper raised *)
+Definition agree_mapper (d : definitions) (obs : option (list fclass)) : bool :=
+  match map_definitions d, obs with
+  | Some cs, Some r => list_eqb fclass_eqb (map (flatten 12) cs) r
+  | None, None => true
+  | _, _ => false
+  end.
+
 Record wsdl_case := mk_case {
   wc_defs : definitions;        (* read independently of xsdata (lxml) *)
   wc_senv : senv;
+  wc_mapped : option (list fclass);   (* DefinitionsMapper.map(...) as observed *)
   wc_real : list service_desc;  (* read from the generated classes *)
   wc_e2e : list e2e_obs }.
 
@@ -166,13 +233,14 @@ Definition agree_pipeline (e : senv) (d : definitions) (real : list service_desc
   | None => false
   end.
 
-(* (wf, model = real, per-operation codes, no extra services, e2e codes) *)
-Definition oracle_case (c : wsdl_case) : bool * bool * list nat * bool * list nat :=
+(* (wf, model mapper = real mapper, model = real, per-operation codes, no extra services, e2e codes) *)
+Definition oracle_case (c : wsdl_case) : bool * bool * bool * list nat * bool * list nat :=
   (wf_definitions (wc_defs c),
+   agree_mapper (wc_defs c) (wc_mapped c),
    agree_pipeline (wc_senv c) (wc_defs c) (wc_real c),
    oracle_codes (wc_senv c) (wc_defs c) (wc_real c),
    no_extra_services (wc_defs c) (wc_real c),
-   map (e2e_code (wc_defs c)) (wc_e2e c)).
+   map (e2e_code (wc_senv c) (wc_defs c)) (wc_e2e c)).
 
 (* Client.prepare_headers: (transport, soap_action, user headers, observed result | None = ClientValueError) *)
 Definition headers_eqb := list_eqb (pair_eqb str_eqb str_eqb).
